@@ -5,6 +5,7 @@ from .. import gen, core
 from ..real import hex6
 
 ID = "C19"
+OPT_MODE = False     # (moves / WL runs / plots are not re-run under python -O)
 LEAN_TARGETS = ["Cider.Props.C19", "Cider.Props.C19Tie"]
 P = "Cider.C19."
 THEOREMS = [P + t for t in (
@@ -86,6 +87,8 @@ def cases(rng, tier):
         x, y = round(rng.random() * 0.6, 3), round(rng.random() * 0.4, 3)
         entry = rng.choice(["pl_show_single_phase", "pl_save_single_phase", "pl_show_single_uversky", "pl_save_single_uversky"])
         a = dict(kw, x=x, y=y, fmt=rng.choice(["png", "pdf"]))
+        if rng.random() < 0.3:
+            a["coords_as_str"] = True
         yield Case([ptok(entry, a)], {"kind": "plots-single", "entry": entry, "args": a})
         m = rng.randint(1, 4)
         seqs = [gen.rand_seq(rng, rng.choice(gen.KINDS), rng.randint(5, 40)) for _ in range(m)]
@@ -95,6 +98,8 @@ def cases(rng, tier):
         a.pop("label", None)
         if labels and rng.random() < 0.5:
             a["labels_as"] = rng.choice(["tuple", "ndarray"])      # the labels in another sequence type
+        if rng.random() < 0.4:
+            a["seqs_one_shot"] = rng.choice(["iter", "gen", "tuple"])      # the objects handed over as a one-shot iterator / a tuple
         lines = [ptok(entry, a)]
         for sq in seqs:
             lines += ["q fplus " + sq, "q fminus " + sq, "q mnc " + sq, "q uversky " + sq]
